@@ -1383,6 +1383,7 @@ def normalize(repo: Repo, ci: Optional[ClassInfo], fn: ast.FunctionDef, sf: Opti
             out = nxt
             changed = True
         if changed:
+            out = _flatten_only(repo, ci, out, sf, **kw)      # `mod = self.module; yield from mod._x_chunks()` is now resolvable
             out = unroll(out, repo, ci, sf)      # `fields = self._FIELDS; for f in fields` now iterates the constant itself
     if any(isinstance(n, ast.Assign) and isinstance(n.value, ast.Constant) and isinstance(n.value.value, bool) for n in ast.walk(out)) \
             and any(isinstance(n, ast.For) for n in ast.walk(out)):
